@@ -510,3 +510,4 @@ def run(ctx):
     etaglist.list_constructor(ctx, "C04.R5")
     M = SM.analyse(ctx)
     SM.c04_exit_order(ctx, M)
+    SM.c04_call_args(ctx, M)
